@@ -47,7 +47,8 @@ OUT_OF_REACH = ['GSS-API methods', 'hostbased auth from the hostile client '
 REQUIRED = ['histories', 'success_checked', 'refusal_checked',
             'clean_valid_admitted', 'preauth_probes', 'restriction_probes',
             'gated_histories', 'signature_defects', 'positive_logins',
-            'user_switches', 'exec_reordered', 'cert_logins', 'cert_refusals_expected',
+            'user_switches', 'exec_reordered', 'preauth_app_checked',
+            'cert_logins', 'cert_refusals_expected',
             'cert_admissions_expected']
 BUDGET_S = {'quick': 300, 'thorough': 3400}
 CASE_TIMEOUT_S = 60
@@ -234,9 +235,10 @@ def gen_cases(tier, seed):
                                              'steps:rand', 'steps:rand']),
                       'chunk': 'all', 'cseed': rng.randrange(1 << 30)})
 
-    npos = 14 if tier == 'quick' else 200
+    npos = 22 if tier == 'quick' else 220
     kinds = ['password', 'ed25519', 'ecdsa', 'rsa', 'cert', 'agent',
-             'openssh_key', 'kbdint']
+             'openssh_key', 'kbdint', 'password_otp_kbdint',
+             'password_pam_rounds', 'password_kbdint_prompt']
     for i in range(npos):
         cases.append({'kind': 'positive', 'cred': kinds[i % len(kinds)],
                       'cseed': rng.randrange(1 << 30)})
@@ -394,6 +396,11 @@ def _build(peer, step, rng, sent):
                                       b'keyboard-interactive',
                                       R.sstr(b'') + R.sstr(b''))]
     if kind == 'open':
+        if rng.random() < 0.5:
+            return [bytes([R.MSG_CHANNEL_OPEN]) + R.sstr(b'direct-tcpip') +
+                    R.u32(78) + R.u32(100000) + R.u32(32768) +
+                    R.sstr(b'dest.example') + R.u32(80) +
+                    R.sstr(b'10.0.0.1') + R.u32(1234)]
         return [bytes([R.MSG_CHANNEL_OPEN]) + R.sstr(b'session') +
                 R.u32(77) + R.u32(100000) + R.u32(32768)]
     if kind == 'global':
@@ -580,6 +587,20 @@ def _run_history(case, mon, viol):
                 viol.append({'mechanism': 'preauth_request_accepted',
                              'detail': f'steps={steps}: replies '
                                        f'{all_replies}'})
+            # ... and nothing of it reaches the application either (replies
+            # may be held back until authentication completes, the callbacks
+            # - listeners opened, outbound connections made - are not)
+            first_done = next((k for k, e in enumerate(rec)
+                               if e[0] == 'auth_completed'), len(rec))
+            reached = [e for e in rec[:first_done]
+                       if e[0] in ('server_requested',
+                                   'connection_requested')]
+            mon['preauth_app_checked'] += 1
+            if reached:
+                viol.append({
+                    'mechanism': 'preauth_request_reached_application',
+                    'detail': f'steps={steps}: {reached[:3]} before any '
+                              f'authentication completed'})
 
             # --- safety: granted user has its own accepted credential
             if success or granted:
@@ -923,19 +944,41 @@ def _run_positive(case, mon, viol):
                     asyncssh.import_authorized_keys(ak))
                 return True
 
+            rounds = 0
+
             def password_auth_supported(self):
-                return cred == 'password'
+                return cred in ('password', 'password_otp_kbdint')
 
             def validate_password(self, u, p):
                 return (u, p) == ('user', 'secret')
 
             def kbdint_auth_supported(self):
-                return cred == 'kbdint'
+                return cred in ('kbdint', 'password_otp_kbdint',
+                                'password_pam_rounds',
+                                'password_kbdint_prompt')
 
             def get_kbdint_challenge(self, u, lang, sub):
+                if cred == 'password_otp_kbdint':
+                    # a challenge a password-only client cannot answer;
+                    # the password method is offered as well
+                    return '', '', 'en', [('Verification code:', True)]
+                if cred == 'password_pam_rounds':
+                    # PAM style: a notice round without prompts first
+                    return 'Notice', 'Authorized use only', 'en', []
+                if cred == 'password_kbdint_prompt':
+                    return '', '', 'en', [('Password:', False)]
                 return '', '', 'en', [('Code:', False)]
 
             def validate_kbdint_response(self, u, resp):
+                if cred == 'password_otp_kbdint':
+                    return False
+                if cred == 'password_pam_rounds':
+                    self.rounds += 1
+                    if self.rounds == 1:
+                        return '', '', 'en', [('Password:', False)]
+                    return list(resp) == ['secret']
+                if cred == 'password_kbdint_prompt':
+                    return list(resp) == ['secret']
                 return list(resp) == ['1234']
 
             def auth_completed(self):
@@ -951,7 +994,9 @@ def _run_positive(case, mon, viol):
                     agent_path=None, client_keys=None)
         agent_proc = None
         try:
-            if cred == 'password':
+            if cred in ('password', 'password_otp_kbdint',
+                        'password_pam_rounds', 'password_kbdint_prompt'):
+                # a plain client that only knows the password
                 conn = await asyncssh.connect('127.0.0.1', port,
                                               password='secret', **base)
             elif cred == 'kbdint':
